@@ -374,6 +374,15 @@ func TestW_followingOfAttribute(t *testing.T) {
 	}
 }
 
+func TestW_starIsNoNameChar(t *testing.T) {
+	// optional whitespace never changes the meaning: price*2 is price * 2
+	doc := `<r><book><price>10</price></book><book><price>40</price></book></r>`
+	wantEval(t, doc, "", `count(//book[price*2 > 60])`, float64(1))
+	wantEval(t, doc, "", `count(//book[price * 2 > 60])`, float64(1))
+	wantEval(t, doc, "", `//book[1]/price*2`, float64(20))
+	wantEval(t, doc, "", `count(//book/*)`, float64(2))
+}
+
 func TestW_filteredStepNotPruned(t *testing.T) {
 	// a descendant step with a predicate must visit nested matches: the outer <a> fails [@p]
 	doc := `<r><a id="1"><a id="2" p="1"><b id="b1"/></a><b id="b2"/></a></r>`
